@@ -6,8 +6,8 @@ CONSTANTS
   KeyU <- MC_KeyU
   PatU <- MC_PatU
   ParentU <- MC_ParentU
-  Targets_ = {"s", "gg2", "own", "empty"}
-  Pats_ = {"?/s", "#", "$SYS/#", "u"}
+  Targets_ = {"s", "gg2", "own"}
+  Pats_ = {"?/s", "#", "$SYS/#"}
   MaxVer = 1
   MaxAcq = 0
   MaxSubs = 1
